@@ -1288,7 +1288,7 @@ def normalise_names(params, body, scoped=False):
     return new_params, walk(body), names
 
 
-def canonical_init_prefix(body: list) -> list:
+def canonical_init_prefix(body: list, empties=False) -> list:
     """The leading run of initialisations with literals (`x = 0`, `a, b = 0, False`) is split into single assignments
     and ordered by the first occurrence of the variable in the rest of the body: these statements are independent of
     each other, so writing them in another order (or as one tuple assignment) is the same function - and, with the
@@ -1296,7 +1296,7 @@ def canonical_init_prefix(body: list) -> list:
     run, i = [], 0
     while i < len(body):
         s = body[i]
-        if s[0] == "assign" and s[2][0] == "lit":
+        if s[0] == "assign" and (s[2][0] == "lit" or (empties and s[2] == ("tuple", []))):    # phase 6: also `x = []`
             run.append((s[1], s[2]))
         elif s[0] == "unpack" and s[2][0] == "tuple" and len(s[1]) == len(s[2][1]) and all(e[0] == "lit" for e in s[2][1]):
             run += list(zip(s[1], s[2][1]))
@@ -1377,7 +1377,7 @@ def translate_function(fn: ast.FunctionDef, enums, loggers=frozenset(), scoped=F
         raise TranslationError(f"{fn.name}: only plain positional parameters are supported")
     tr = Tr(fn, enums, loggers, plumbing, opaque, module, orch, None if static else cls, methods, meta)
     raw = tr.block(fn.body)
-    params, body, names = normalise_names([p.arg for p in a.args], canonical_init_prefix(raw), scoped)
+    params, body, names = normalise_names([p.arg for p in a.args], canonical_init_prefix(raw, orch), scoped)
     out = {"params": params, "body": body, "names": names}
     if orch:
         out["meta"] = {"src_params": src_params, "defaults": dflt, "effects": not tr.effect_free(raw),
